@@ -279,6 +279,21 @@ def build_cases(rng, tier):
         for e in dyn_tests:
             for ctx in (range(1, n + 1) if not quick else sorted(set([1, 2, n] + rng.sample(range(1, n + 1), min(n, 3))))):
                 cases.append((d + 1, ctx, 1, 1, e, {}))
+    # exsl:node-set() of values that are no node-sets (EXSLT: "converted to a string ... a node-set consisting of a single text node"), seen
+    # through the conversions; a node-set argument is returned as it is
+    NSET = lambda a_: xpgen.xfn("exsl", "node-set", a_)
+    for a_ in [lit("str"), lit(""), lit(" 2 "), num(12), num8(4), fn("true"), fn("false"), bin_("div", num(1), num(0)), bin_("=", lit("x"), lit("x")), neg(num(0)),
+               path([step("attribute", t_name("x"))]), path([dict(DOS), step("child", t_name("b"))], abs_=True), fn("number", lit("x"))]:
+        w_ = NSET(a_)
+        for e in [fn("string", w_), fn("count", w_), fn("boolean", w_), fn("number", w_), fn("not", w_), xpgen.xfn("exsl", "object-type", w_), fn("string-length", w_),
+                  fn("concat", w_, lit("|"), w_), bin_("=", w_, lit("str")), bin_("=", w_, num(12)), bin_("<", w_, num(13)), bin_("=", w_, fn("true")), bin_("!=", w_, w_),
+                  bin_("+", w_, num(1)), fn("count", NSET(w_))]:
+            for ctx in (1, 2, 4):
+                cases.append((1, ctx, 1, 1, e, {}))
+    # math:constant at full precision (string form; see XPathSem!MathConstantString): every constant x precisions from 17 on
+    for cn in ["PI", "E", "SQRRT2", "LN2", "LN10", "LOG2E", "SQRT1_2"]:
+        for pr in [17, 18, 20, 25, 40, 52, 60, 100]:
+            cases.append((1, 1, 1, 1, fn("string", xpgen.xfn("math", "constant", lit(cn), num(pr))), {}))
     nrand = 6000 if quick else 120000
     varsets = [{}, {"n": {"t": "num", "v": {"k": "fin", "neg": False, "m": 16}}, "s": {"t": "str", "v": xdm.cps("t")},
                     "b": {"t": "bool", "v": True}}]
